@@ -87,7 +87,7 @@ def cases(tier, seed):
                                 if mdl == "HilbertEOF":
                                     d["padding"] = None
                                 if mdl == "ExtendedEOF":
-                                    if k > 4:
+                                    if k > min(4, n - 1):  # the embedded matrix has n - (embedding - 1) tau rows
                                         continue
                                     d.update(tau=1, embedding=2, n_pca_modes=None)
                                 out.append(d)
@@ -103,7 +103,7 @@ def cases(tier, seed):
                     if mdl == "HilbertEOF":
                         d["padding"] = None
                     if mdl == "ExtendedEOF":
-                        if k > 4:
+                        if k > min(4, n - 1):  # the embedded matrix has n - (embedding - 1) tau rows
                             continue
                         d.update(tau=1, embedding=2, n_pca_modes=None)
                     out.append(d)
